@@ -78,6 +78,10 @@ def shape(name, F):
         return [1.0 * 3.0 ** i for i in range(F)]
     if name == "flat":
         return [2.0] * F
+    if name == "dead":                                        # zero amplitude away from a single peak
+        y = [0.0] * F
+        y[F // 2 - 1], y[F // 2], y[F // 2 + 1] = 1.0, 3.0, 1.0
+        return y
     if name == "edge_lo":                                     # maximum at first sample
         return [5.0] + [1.0 + 0.25 * i for i in range(F - 1)][::-1][:F - 1]
     raise KeyError(name)
